@@ -54,6 +54,18 @@ var (
 	}
 )
 
+// lfsLogSearchArgs returns logLfsSearchArgs, completed with the options
+// that depend on the version of Git.
+func lfsLogSearchArgs() []string {
+	args := append([]string{}, logLfsSearchArgs...)
+	if git.IsGitVersionAtLeast("2.28.0") {
+		// With diff.relative set and the command run in a subdirectory,
+		// changes outside of that directory would not be shown at all.
+		args = append(args, "--no-relative")
+	}
+	return args
+}
+
 type gitscannerResult struct {
 	Pointer *WrappedPointer
 	Err     error
@@ -90,7 +102,7 @@ func scanUnpushed(cb GitScannerFoundPointer, remote string) error {
 	}
 
 	// Add standard search args to find lfs references
-	logArgs = append(logArgs, logLfsSearchArgs...)
+	logArgs = append(logArgs, lfsLogSearchArgs()...)
 
 	cmd, err := git.Log(logArgs...)
 	if err != nil {
@@ -155,7 +167,7 @@ func scanStashed(cb GitScannerFoundPointer) error {
 
 	for _, logArgs := range stashMergeLogArgs {
 		// Add standard search args to find lfs references
-		logArgs = append(logArgs, logLfsSearchArgs...)
+		logArgs = append(logArgs, lfsLogSearchArgs()...)
 
 		logArgs = append(logArgs, stashMergeShas...)
 
@@ -214,7 +226,7 @@ func logPreviousSHAs(cb GitScannerFoundPointer, ref string, filter *filepathfilt
 		fmt.Sprintf("--since=%v", git.FormatGitDate(since)),
 	}
 	// Add standard search args to find lfs references
-	logArgs = append(logArgs, logLfsSearchArgs...)
+	logArgs = append(logArgs, lfsLogSearchArgs()...)
 	// ending at ref
 	logArgs = append(logArgs, ref)
 
